@@ -9,7 +9,9 @@
    as binary64 computations. *)
 From Coq Require Import ZArith List String.
 From Flocq Require Import IEEE754.BinarySingleNaN IEEE754.Binary IEEE754.Bits.
-From Verif Require Import Base.GoFloat Base.GoInt Engine.Docker Engine.DockerProofs.
+From Coq Require Import Reals.
+From Flocq Require Import Core.
+From Verif Require Import Base.GoFloat Base.GoInt Engine.Docker Engine.DockerProofs Engine.DockerReal.
 Import ListNotations.
 Local Open Scope Z_scope.
 
@@ -104,6 +106,18 @@ Theorem C31_round_is_nearest : forall s m e H,
   0 < den /\ 0 <= z /\ Z.abs (z * den - num) * 2 <= den.
 Proof. exact round_nearest. Qed.
 Print Assumptions C31_round_is_nearest.
+
+(* one real-number bound for ALL binary64 cpu limits in range (0 <= limit x period <= 2^31,
+   i.e. up to 21474 cpus): the quota differs from the real product limit x period by at most
+   1/2 + 2^-22  (Flocq: the binary64 product is the rounding of the real product, half an ulp;
+   then int64(math.Round(.)) is a nearest integer) *)
+Theorem C31_quota_real_bound : forall cpu : f64,
+  is_finite 53 1024 cpu = true ->
+  (0 <= B2R 53 1024 cpu)%R ->
+  (B2R 53 1024 cpu * 100000 <= bpow radix2 31)%R ->
+  (Rabs (IZR (quota_of true cpu) - B2R 53 1024 cpu * 100000) <= / 2 + bpow radix2 (-22))%R.
+Proof. exact quota_real_bound. Qed.
+Print Assumptions C31_quota_real_bound.
 
 (* before the repairs: truncation gave 0.29 cpu a quota of 28999us, and updating
    an unbound workload with limit 0.5 gave it quota -1 (unrestricted) *)
